@@ -77,6 +77,15 @@ func c15(c *Ctx) {
 						}
 					case strings.HasPrefix(nme, "fmt."):
 					default:
+						// a helper of the package: the same discipline applies to its parameter
+						if g := x.Call.StaticCallee(); g != nil && g.Blocks != nil && g.Pkg == f.Pkg && depth < 4 {
+							for i, a := range x.Call.Args {
+								if a == v && i < len(g.Params) {
+									walk(g.Params[i], depth+1)
+								}
+							}
+							break
+						}
 						bad = "outputLength is passed to " + shortName(nme) + ": the computed bytes may depend on the requested length"
 					}
 				case *ssa.Store:
@@ -89,7 +98,36 @@ func c15(c *Ctx) {
 		}
 		walk(ol, 0)
 		r.Check(bad == "", "C15.noninterference", "C15.noninterference/"+fid, p.FuncPos(f), bad, "outputLength reaches only guards, slice bounds, make/read lengths")
-		// ---- maxlen: slices bounded by outputLength are in bounds
+		// ---- maxlen: slices bounded by outputLength are in bounds; a result buffer
+		// allocated with exactly outputLength bytes (here or in a helper of the
+		// package that receives outputLength) needs no cut
+		{
+			made := false
+			scope := []*ssa.Function{f}
+			vals := map[*ssa.Function]ssa.Value{f: ol}
+			allInstrs(f, func(ins ssa.Instruction) {
+				if call, ok := ins.(*ssa.Call); ok {
+					if g := call.Call.StaticCallee(); g != nil && g.Blocks != nil && g.Pkg == f.Pkg {
+						for i, a := range call.Call.Args {
+							if guard.Strip(a) == ssa.Value(ol) && i < len(g.Params) {
+								scope = append(scope, g)
+								vals[g] = g.Params[i]
+							}
+						}
+					}
+				}
+			})
+			for _, g := range scope {
+				allInstrs(g, func(ins ssa.Instruction) {
+					if mk, ok := ins.(*ssa.MakeSlice); ok && core.IsByteSlice(mk.Type()) && guard.Strip(mk.Len) == vals[g] {
+						made = true
+					}
+				})
+			}
+			if made {
+				r.Ok("C15.maxlen", fmt.Sprintf("C15.maxlen/%s/make(outputLength)", fid), p.FuncPos(f), "result buffer allocated with exactly outputLength bytes")
+			}
+		}
 		allInstrs(f, func(ins ssa.Instruction) {
 			sl, ok := ins.(*ssa.Slice)
 			if !ok || sl.High == nil || guard.Strip(sl.High) != ssa.Value(ol) && !derivesFrom(sl.High, ol, 0) {
